@@ -4,6 +4,7 @@ import (
 	"math"
 	"math/bits"
 	"reflect"
+	"strconv"
 
 	"github.com/dop251/goja/unistring"
 )
@@ -25,10 +26,20 @@ func (o *objectGoSliceReflect) _putIdx(idx int, v Value, throw bool) bool {
 	return o.objectGoArrayReflect._putIdx(idx, v, throw)
 }
 
+// allocGoSliceReflect is allocGoSlice for a wrapped slice of any element type.
+func allocGoSliceReflect(typ reflect.Type, size, capacity int) (n reflect.Value) {
+	defer func() {
+		if x := recover(); x != nil {
+			panic(rangeError("Slice size is too large: " + strconv.Itoa(size)))
+		}
+	}()
+	return reflect.MakeSlice(typ, size, capacity)
+}
+
 func (o *objectGoSliceReflect) grow(size int) {
 	oldcap := o.fieldsValue.Cap()
 	if oldcap < size {
-		n := reflect.MakeSlice(o.fieldsValue.Type(), size, growCap(size, o.fieldsValue.Len(), oldcap))
+		n := allocGoSliceReflect(o.fieldsValue.Type(), size, growCap(size, o.fieldsValue.Len(), oldcap))
 		reflect.Copy(n, o.fieldsValue)
 		o.fieldsValue.Set(n)
 		l := len(o.valueCache)
